@@ -344,7 +344,10 @@ class Ctx:
         ev = {"property_id": self.prop, "tier": self.tier, "seed": self.seed, "level": level, "coverage": cov,
               "assumptions": (assumptions or []) + self.assumptions, "wall_s": round(time.time() - self.t0, 2),
               "violations": len(self.violations) + (1 if (self.broken and not self.violations) else 0)}
-        json.dump(ev, open(os.path.join(VERIF, "evidence", f"{self.prop}.json"), "w"), indent=1)
+        # a run against another source tree (VERIF_REPO: seeded changes, mutation scans) must not overwrite the evidence of the real tree
+        evdir = os.path.join(VERIF, "evidence") if REPO == "/repo" else os.path.join(BUILD, "evidence-other-tree")
+        os.makedirs(evdir, exist_ok=True)
+        json.dump(ev, open(os.path.join(evdir, f"{self.prop}.json"), "w"), indent=1)
         for l in lines:
             print(l, flush=True)
         if rc == 0:
